@@ -119,6 +119,57 @@ fn query<RK: RadioKind>(
     Some((mp.low_data_rate_optimize, all.pop().unwrap(), second))
 }
 
+/// The LDRO bit the chip ends up with after a full configuration as `LoRa::prepare_for_tx/rx` performs it:
+/// set_modulation_params followed by set_packet_params (header mode x CRC), over a register file that serves
+/// back what was written (prior content all zeros / all ones).  Returns the SPI writes of both calls per variant.
+fn query_prepared<RK: RadioKind>(
+    rk: &mut RK,
+    bus: &std::rc::Rc<std::cell::RefCell<Bus>>,
+    sf: SpreadingFactor,
+    bw: Bandwidth,
+) -> Option<Vec<(u8, u8, u8, Vec<Vec<u8>>)>> {
+    let mp = rk.create_modulation_params(sf, bw, CodingRate::_4_5, 868_100_000).ok()?;
+    let mut out = vec![];
+    for prior in [0x00u8, 0xff] {
+        for hdr in [false, true] {
+            for crc in [false, true] {
+                let regs = std::rc::Rc::new(std::cell::RefCell::new([prior; 128]));
+                let (r1, r2) = (regs.clone(), regs.clone());
+                {
+                    let mut b = bus.borrow_mut();
+                    // register-file semantics of the SX127x (first byte = address, bit 7 = write); harmless for the
+                    // command-based chips, which do not read anything back here
+                    b.responder = Box::new(move |w: &[u8], r: &mut [u8]| {
+                        let a = w.first().map(|a| (a & 0x7f) as usize).unwrap_or(0);
+                        for (i, x) in r.iter_mut().enumerate() {
+                            *x = r1.borrow()[(a + i) & 0x7f];
+                        }
+                    });
+                    b.on_write = Some(Box::new(move |w: &[u8]| {
+                        if w.len() >= 2 && w[0] & 0x80 != 0 {
+                            let a = (w[0] & 0x7f) as usize;
+                            for (i, v) in w[1..].iter().enumerate() {
+                                r2.borrow_mut()[(a + i) & 0x7f] = *v;
+                            }
+                        }
+                    }));
+                    b.log.clear();
+                }
+                if block_on(rk.set_modulation_params(&mp)).is_err() {
+                    return None;
+                }
+                let pp = rk.create_packet_params(8, hdr, 16, crc, false, &mp).ok()?;
+                if block_on(rk.set_packet_params(&pp)).is_err() {
+                    return None;
+                }
+                out.push((prior, hdr as u8, crc as u8, spi_writes(bus)));
+                bus.borrow_mut().on_write = None;
+            }
+        }
+    }
+    Some(out)
+}
+
 /// `vh ldro`: every implementation's LDRO decision and the bytes it programs, for all 80 (SF,BW).
 pub fn ldro(a: &Args) {
     let mut out = Shards::create(&a.out, "ldro", a.shards);
@@ -131,6 +182,7 @@ pub fn ldro(a: &Args) {
                 }
             }
             let mut decisions: Vec<u32> = Vec::new();
+            let mut prepared: Vec<(&str, Option<Vec<(u8, u8, u8, Vec<Vec<u8>>)>>)> = Vec::new();
             let calc = BaseBandModulationParams::new(sf, *bw, CodingRate::_4_5).ldro as u32;
             decisions.push(calc);
             out.emit(&json!({"ev":"ldro","impl":"calc","what":"decision","sf":sf.factor(),"bw":bi,
@@ -156,6 +208,7 @@ pub fn ldro(a: &Args) {
                     sx126x::Config { chip: sx126x::Sx1262, tcxo_ctrl: None, use_dcdc: false, rx_boost: false },
                 );
                 rec("sx126x", query(&mut rk, &bus, sf, *bw), &mut decisions);
+                prepared.push(("sx126x", query_prepared(&mut rk, &bus, sf, *bw)));
             }
             {
                 let bus = Bus::new();
@@ -165,6 +218,7 @@ pub fn ldro(a: &Args) {
                     sx127x::Config { chip: sx127x::Sx1276, tcxo_used: false, tx_boost: false, rx_boost: false },
                 );
                 rec("sx1276", query(&mut rk, &bus, sf, *bw), &mut decisions);
+                prepared.push(("sx1276", query_prepared(&mut rk, &bus, sf, *bw)));
             }
             {
                 let bus = Bus::new();
@@ -174,6 +228,7 @@ pub fn ldro(a: &Args) {
                     sx127x::Config { chip: sx127x::Sx1272, tcxo_used: false, tx_boost: false, rx_boost: false },
                 );
                 rec("sx1272", query(&mut rk, &bus, sf, *bw), &mut decisions);
+                prepared.push(("sx1272", query_prepared(&mut rk, &bus, sf, *bw)));
             }
             {
                 let bus = Bus::new();
@@ -189,6 +244,13 @@ pub fn ldro(a: &Args) {
                     },
                 );
                 rec("lr1110", query(&mut rk, &bus, sf, *bw), &mut decisions);
+                prepared.push(("lr1110", query_prepared(&mut rk, &bus, sf, *bw)));
+            }
+            for (name, q) in prepared {
+                for (prior, hdr, crc, txns) in q.unwrap_or_default() {
+                    out.emit(&json!({"ev":"ldro","impl":name,"what":"prepared","sf":sf.factor(),"bw":bi,
+                                     "supported":1,"ldro":-1,"txns":txns,"prior":prior,"hdr":hdr,"crc":crc}));
+                }
             }
             out.emit(&json!({"ev":"ldro_agree","sf":sf.factor(),"bw":bi,"decisions":decisions}));
         }
